@@ -21,6 +21,7 @@ def mapRangeSites : List String := [
   "internal/codegen/python/gen.go:Generate: range files",
   "internal/codegen/python/imports.go:buildImportBlock: range fromImports",
   "internal/codegen/python/imports.go:buildImportBlock: range pkgs",
+  "internal/config/config.go:mergeRename: range pkg",
   "internal/sql/rewrite/parameters.go:NamedParameters: range args"
 ]
 /-- every call into package sort, with its key expression -/
